@@ -226,6 +226,9 @@ def run(ctx):
 
     shutil.copy(PROPS / "Prop_C19.v", rd / "Prop_C19.v")
     ctx.prove(rd / "Prop_C19.v", "Prop_C19.v (8 theorems)", "theorem-file")
+    # static tie: extract.py / geotherm.py are translated again on every run and proved equal to ExtractModel.v
+    from props import cli_static
+    cli_static.static_tie(ctx, rd)
 
     import importlib
     import cij.cli.extract as EX
@@ -341,6 +344,7 @@ def run(ctx):
         names = [n for n, _ in geo_cols]
         rows = zip(*[c for _, c in geo_cols])
         # columns in int_cols are written the way geotherm files usually are: whole numbers without a decimal point
+        assert all(float(x).is_integer() for n, c in geo_cols if n in int_cols for x in c), "int_cols need whole numbers"
         num = lambda n, x: ("%d" % x) if n in int_cols else repr(x)          # noqa: E731
         gpath.write_text(" ".join(names) + "\n" + "\n".join(" ".join(num(n, x) for n, x in zip(names, r)) for r in rows) + "\n")
         if int_cols:
@@ -450,11 +454,12 @@ def run(ctx):
                     [("P", [p for _, p in pts]), ("T", [t for t, _ in pts]), ("D", [100.0 * n for n in range(len(pts))])],
                     fn=lin, tol=1e-6)
         # whole-number temperatures / pressures written without a decimal point (pandas reads them as int64 columns)
-        ipts = nodes[:3] + [(float(math.floor(t)), p) for t, p in mids] + [(float(math.ceil(T[1] + 0.37 * dT)), float(math.ceil(P[0] + 0.4 * dP)))]
+        tint = lambda t: float(min(max(math.ceil(t), math.ceil(T[0])), math.floor(T[-1])))      # noqa: E731 - whole number inside the range
+        ipts = [(tint(t), p) for t, p in nodes[:3] + mids] + [(tint(T[1] + 0.37 * dT), float(math.ceil(P[0] + 0.4 * dP)))]
         do_geotherm(tag, d, listing, files, ["c11s", "v_p"],
                     [("D", [10.0 * n for n in range(len(ipts))]), ("P", [p for _, p in ipts]), ("T", [t for t, _ in ipts])],
                     fn=lin, tol=1e-6, int_cols=("T", "D"))
-        if all(float(p).is_integer() for _, p in nodes):
+        if all(float(p).is_integer() and float(t).is_integer() for t, p in nodes):
             do_geotherm(tag, d, listing, files, ["bm_VRH"],
                         [("P", [p for _, p in nodes]), ("T", [t for t, _ in nodes])], fn=lin, tol=1e-6, int_cols=("T", "P"))
         rpts = [(round(ctx.rng.uniform(T[0], T[-1]), 2), round(ctx.rng.uniform(P[0], P[-1]), 3)) for _ in range(4 if quick else 40)]
